@@ -104,6 +104,18 @@ func accRouterInfo(ri *router_info.RouterInfo) map[string]any {
 	m["sig"] = accSig(&s)
 	h, herr := ri.IdentHash()
 	m["identhash"], m["identhash_ok"] = ints(h[:]), herr == nil
+	// capability / version accessors and the queries derived from them (C02 accessor predicate, extension family X01)
+	m["caps"] = ints([]byte(ri.RouterCapabilities()))
+	m["version"] = ints([]byte(ri.RouterVersion()))
+	gv, gverr := ri.GoodVersion()
+	m["q"] = map[string]any{
+		"floodfill": ri.IsFloodfill(), "medium": ri.IsMediumCongested(), "high": ri.IsHighCongested(), "rejecting": ri.IsRejectingTunnels(),
+		"uncongested": ri.UnCongested(), "reachable": ri.Reachable(), "bw": ints([]byte(ri.SharedBandwidthCategory())),
+		"bwflags": []any{ri.IsLowBandwidthRouter(), ri.IsMediumLowBandwidthRouter(), ri.IsMediumBandwidthRouter(),
+			ri.IsMediumHighBandwidthRouter(), ri.IsHighBandwidthRouter(), ri.IsUnlimitedBandwidthRouter()},
+		"ntcp2": ri.SupportsNTCP2(), "ssu2": ri.SupportsSSU2(), "ipv4": ri.HasIPv4(), "ipv6": ri.HasIPv6(),
+		"goodversion": gv, "goodversion_err": gverr != nil,
+	}
 	return m
 }
 
